@@ -1,29 +1,613 @@
-//! c03 probe (temporary)
-use falcon::translator::aarch64::AArch64;
+//! c03 -- AArch64 lifter vs. the Arm ARM pseudocode (property C03).
+//! Enumerates instruction words of the classes the property lists (structured sweep + random words of
+//! those classes), lifts each with the REAL lifter (translator::aarch64::{AArch64, AArch64Eb}::translate_block
+//! on the four bytes, default options, under catch_unwind), dumps the lifted IL (instruction graph +
+//! successors) as Gallina terms together with sampled machine states.  Coq (Isa/C03Check.v) decodes the
+//! word with the specification's decoder, checks mirror(decoded) = dumped IL, runs the dumped IL with
+//! Exec/Sem.v from every sampled state and compares with Isa/A64.v's a64step.
+use falcon::translator::aarch64::{AArch64, AArch64Eb};
 use falcon::translator::{Options, Translator};
+use fvh::ilgen::*;
 use fvh::*;
 
-fn main() {
-    quiet_panics();
-    let v: Vec<String> = std::env::args().collect();
-    for w in &v[1..] {
-        let word = u32::from_str_radix(w.trim_start_matches("0x"), 16).unwrap();
-        let bytes = word.to_le_bytes().to_vec();
-        let r = observe(|| AArch64::new().translate_block(&bytes, 0x1000, &Options::new()));
-        match r {
-            Obs::Ok(b) => {
-                println!("{:08x}: ok len={} succ={:?}", word, b.length(), b.successors().iter().map(|(a, c)| format!("{:#x}:{}", a, c.as_ref().map(|e| format!("{}", e)).unwrap_or("-".into()))).collect::<Vec<_>>());
-                for (a, g) in b.instructions() {
-                    println!("  @{:#x} entry={:?} exit={:?}", a, g.entry(), g.exit());
-                    for bl in g.blocks() {
-                        for i in bl.instructions() {
-                            println!("    {} {}", i.index(), i.operation());
+// ---------------------------------------------------------------- fixed scalar ids (see Isa/A64Lift.v)
+fn seed_interner() -> Interner {
+    let mut it = Interner::new();
+    for i in 0..31 {
+        it.id(&format!("x{}", i));
+    }
+    for n in ["sp", "n", "z", "c", "v", "xzr", "wzr"] {
+        it.id(n);
+    }
+    it
+}
+
+// ---------------------------------------------------------------- encoders
+fn addsub_imm(sf: u32, op: u32, s: u32, sh: u32, imm12: u32, rn: u32, rd: u32) -> u32 {
+    sf << 31 | op << 30 | s << 29 | 0b100010 << 23 | sh << 22 | (imm12 & 0xfff) << 10 | rn << 5 | rd
+}
+fn addsub_shift(sf: u32, op: u32, s: u32, shift: u32, rm: u32, imm6: u32, rn: u32, rd: u32) -> u32 {
+    sf << 31 | op << 30 | s << 29 | 0b01011 << 24 | shift << 22 | rm << 16 | (imm6 & 63) << 10 | rn << 5 | rd
+}
+fn addsub_ext(sf: u32, op: u32, s: u32, rm: u32, option: u32, imm3: u32, rn: u32, rd: u32) -> u32 {
+    sf << 31 | op << 30 | s << 29 | 0b01011 << 24 | 1 << 21 | rm << 16 | option << 13 | (imm3 & 7) << 10 | rn << 5 | rd
+}
+fn orr_shift(sf: u32, shift: u32, rm: u32, imm6: u32, rn: u32, rd: u32) -> u32 {
+    sf << 31 | 0b01 << 29 | 0b01010 << 24 | shift << 22 | rm << 16 | (imm6 & 63) << 10 | rn << 5 | rd
+}
+fn movwide(sf: u32, opc: u32, hw: u32, imm16: u32, rd: u32) -> u32 {
+    sf << 31 | opc << 29 | 0b100101 << 23 | hw << 21 | (imm16 & 0xffff) << 5 | rd
+}
+fn ldst_uimm(size: u32, opc: u32, imm12: u32, rn: u32, rt: u32) -> u32 {
+    size << 30 | 0b111 << 27 | 0b01 << 24 | opc << 22 | (imm12 & 0xfff) << 10 | rn << 5 | rt
+}
+/// kind: 0 unscaled, 1 post-index, 2 unprivileged, 3 pre-index
+fn ldst_imm9(size: u32, opc: u32, imm9: u32, kind: u32, rn: u32, rt: u32) -> u32 {
+    size << 30 | 0b111 << 27 | opc << 22 | (imm9 & 0x1ff) << 12 | kind << 10 | rn << 5 | rt
+}
+fn ldst_reg(size: u32, opc: u32, rm: u32, option: u32, s: u32, rn: u32, rt: u32) -> u32 {
+    size << 30 | 0b111 << 27 | opc << 22 | 1 << 21 | rm << 16 | option << 13 | s << 12 | 0b10 << 10 | rn << 5 | rt
+}
+fn ldlit(opc: u32, imm19: u32, rt: u32) -> u32 {
+    opc << 30 | 0b011 << 27 | (imm19 & 0x7ffff) << 5 | rt
+}
+/// mode: 0 no-allocate, 1 post-index, 2 signed offset, 3 pre-index
+fn ldst_pair(opc: u32, mode: u32, l: u32, imm7: u32, rt2: u32, rn: u32, rt: u32) -> u32 {
+    opc << 30 | 0b101 << 27 | mode << 23 | l << 22 | (imm7 & 0x7f) << 15 | rt2 << 10 | rn << 5 | rt
+}
+fn ldst_ord(size: u32, l: u32, o0: u32, rn: u32, rt: u32) -> u32 {
+    size << 30 | 0b001000 << 24 | 1 << 23 | l << 22 | 31 << 16 | o0 << 15 | 31 << 10 | rn << 5 | rt
+}
+fn b_imm(link: u32, imm26: u32) -> u32 {
+    link << 31 | 0b00101 << 26 | (imm26 & 0x3ffffff)
+}
+fn b_reg(opc: u32, rn: u32) -> u32 {
+    0b1101011 << 25 | opc << 21 | 31 << 16 | rn << 5
+}
+fn b_cond(cond: u32, imm19: u32) -> u32 {
+    0b01010100 << 24 | (imm19 & 0x7ffff) << 5 | cond
+}
+fn cb(sf: u32, op: u32, imm19: u32, rt: u32) -> u32 {
+    sf << 31 | 0b011010 << 25 | op << 24 | (imm19 & 0x7ffff) << 5 | rt
+}
+fn tb(b5: u32, op: u32, b40: u32, imm14: u32, rt: u32) -> u32 {
+    b5 << 31 | 0b011011 << 25 | op << 24 | b40 << 19 | (imm14 & 0x3fff) << 5 | rt
+}
+
+// ---------------------------------------------------------------- enumeration
+#[derive(Clone, Copy, PartialEq)]
+enum Kind {
+    Arith,
+    Mem,
+    Cond,
+    TestReg,
+    BranchReg,
+    Plain,
+}
+#[derive(Clone)]
+struct Enc {
+    word: u32,
+    class: &'static str,
+    kind: Kind,
+    /// registers whose value matters (31 = the SP slot; harmless when 31 means ZR)
+    regs: Vec<u32>,
+    /// base register and offset register of a memory access
+    base: Option<u32>,
+    offreg: Option<u32>,
+    /// constants worth approaching (immediates, bit positions)
+    hints: Vec<u64>,
+}
+fn enc(word: u32, class: &'static str, kind: Kind, regs: &[u32]) -> Enc {
+    Enc { word, class, kind, regs: regs.to_vec(), base: None, offreg: None, hints: vec![] }
+}
+
+/// register-field patterns: (rd, rn, rm) with 31 in every position, and the aliasing combinations
+const R3: [(u32, u32, u32); 12] = [
+    (0, 1, 2), (3, 3, 4), (5, 6, 5), (7, 8, 8), (9, 9, 9), (31, 1, 2), (0, 31, 2), (0, 1, 31), (31, 31, 2), (30, 31, 31), (31, 31, 31), (29, 30, 28),
+];
+const R2: [(u32, u32); 8] = [(0, 1), (2, 2), (31, 3), (4, 31), (31, 31), (30, 29), (17, 30), (30, 30)];
+const IMM12: [u32; 7] = [0, 1, 2, 0x7ff, 0x800, 0xffe, 0xfff];
+
+fn structured() -> Vec<Enc> {
+    let mut v: Vec<Enc> = vec![];
+    // ---- add/sub (immediate): op x S x sf x sh x imm boundaries x register patterns (31 = SP / ZR)
+    for sf in 0..2 {
+        for op in 0..2 {
+            for s in 0..2 {
+                for sh in 0..2 {
+                    for (k, imm) in IMM12.iter().enumerate() {
+                        for (j, (rd, rn)) in R2.iter().enumerate() {
+                            if (k + j + sh as usize) % 2 == 1 && *imm != 0 {
+                                continue;
+                            }
+                            let mut e = enc(addsub_imm(sf, op, s, sh, *imm, *rn, *rd), "addsub_imm", Kind::Arith, &[*rn, *rd]);
+                            e.hints = vec![(*imm as u64) << (12 * sh)];
+                            v.push(e);
                         }
                     }
                 }
             }
-            Obs::Err(k) => println!("{:08x}: Err {}", word, k),
-            Obs::Panic => println!("{:08x}: PANIC", word),
         }
     }
+    // ---- add/sub (shifted register): shift kinds x amounts x register patterns
+    for sf in 0..2u32 {
+        let amounts: Vec<u32> = if sf == 1 { vec![0, 1, 31, 32, 63] } else { vec![0, 1, 16, 31, 32] };
+        for op in 0..2 {
+            for s in 0..2 {
+                for shift in 0..4 {
+                    for (a, amt) in amounts.iter().enumerate() {
+                        for (j, (rd, rn, rm)) in R3.iter().enumerate() {
+                            if (a + j + shift as usize) % 3 != 0 && !(*amt == 0 && shift == 0) {
+                                continue;
+                            }
+                            v.push(enc(addsub_shift(sf, op, s, shift, *rm, *amt, *rn, *rd), "addsub_shift", Kind::Arith, &[*rn, *rm, *rd]));
+                        }
+                    }
+                }
+            }
+        }
+    }
+    // ---- add/sub (extended register): every option x amounts 0..5 x register patterns
+    for sf in 0..2 {
+        for op in 0..2 {
+            for s in 0..2 {
+                for option in 0..8 {
+                    for imm3 in 0..6 {
+                        for (j, (rd, rn, rm)) in R3.iter().enumerate() {
+                            if (imm3 as usize + j + option as usize) % 6 != 0 && !(imm3 == 0 && j < 1) {
+                                continue;
+                            }
+                            v.push(enc(addsub_ext(sf, op, s, *rm, option, imm3, *rn, *rd), "addsub_ext", Kind::Arith, &[*rn, *rm, *rd]));
+                        }
+                    }
+                }
+            }
+        }
+    }
+    // ---- moves: ORR (shifted register) incl. the MOV alias, move wide
+    for sf in 0..2 {
+        for (rd, rn, rm) in R3.iter() {
+            v.push(enc(orr_shift(sf, 0, *rm, 0, 31, *rd), "mov_reg", Kind::Arith, &[*rm, *rd]));
+            v.push(enc(orr_shift(sf, 0, *rm, 0, *rn, *rd), "mov_reg", Kind::Arith, &[*rm, *rn, *rd]));
+        }
+        v.push(enc(orr_shift(sf, 0, 2, 3, 31, 1), "mov_reg", Kind::Arith, &[2]));
+        v.push(enc(orr_shift(sf, 1, 2, 0, 31, 1), "mov_reg", Kind::Arith, &[2]));
+        for opc in [0u32, 2, 3] {
+            for hw in 0..4 {
+                for imm in [0u32, 1, 0x1234, 0x7fff, 0x8000, 0xfffe, 0xffff] {
+                    for rd in [0u32, 30, 31] {
+                        if rd != 0 && imm != 0x1234 && imm != 0xffff {
+                            continue;
+                        }
+                        v.push(enc(movwide(sf, opc, hw, imm, rd), "mov_wide", Kind::Arith, &[rd]));
+                    }
+                }
+            }
+        }
+    }
+    // ---- load/store register: every (size, opc) x addressing mode x base/transfer coincidence
+    let rt_rn: [(u32, u32); 7] = [(0, 1), (2, 31), (31, 3), (31, 31), (4, 4), (30, 29), (5, 30)];
+    for size in 0..4u32 {
+        for opc in 0..4u32 {
+            // unsigned offset
+            for imm in [0u32, 1, 2, 0x7ff, 0xfff] {
+                for (j, (rt, rn)) in rt_rn.iter().enumerate() {
+                    if j >= 4 && imm > 1 {
+                        continue;
+                    }
+                    let mut e = enc(ldst_uimm(size, opc, imm, *rn, *rt), "ldst_uimm", Kind::Mem, &[*rt, *rn]);
+                    e.base = Some(*rn);
+                    v.push(e);
+                }
+            }
+            // unscaled / post / pre (and the unprivileged slot, which the lifter must reject)
+            for kind in 0..4u32 {
+                for imm in [0u32, 1, 8, 0xff, 0x100, 0x1f8, 0x1ff] {
+                    for (j, (rt, rn)) in rt_rn.iter().enumerate() {
+                        if j >= 2 && imm != 8 && imm != 0x1f8 && !(j == 4) {
+                            continue;
+                        }
+                        let class = match kind { 0 => "ldst_unscaled", 1 => "ldst_post", 2 => "ldst_unpriv", _ => "ldst_pre" };
+                        let mut e = enc(ldst_imm9(size, opc, imm, kind, *rn, *rt), class, Kind::Mem, &[*rt, *rn]);
+                        e.base = Some(*rn);
+                        v.push(e);
+                    }
+                }
+            }
+            // register offset: every option x S
+            for option in 0..8u32 {
+                for s in 0..2u32 {
+                    for (rt, rn, rm) in [(0u32, 1u32, 2u32), (3, 31, 4), (31, 5, 31), (6, 6, 6), (7, 8, 7)] {
+                        if option & 2 == 0 && rt != 0 {
+                            continue;
+                        }
+                        let mut e = enc(ldst_reg(size, opc, rm, option, s, rn, rt), "ldst_reg", Kind::Mem, &[rt, rn, rm]);
+                        e.base = Some(rn);
+                        e.offreg = Some(rm);
+                        v.push(e);
+                    }
+                }
+            }
+        }
+        // ordered
+        for l in 0..2 {
+            for o0 in 0..2 {
+                for (rt, rn) in rt_rn.iter() {
+                    let mut e = enc(ldst_ord(size, l, o0, *rn, *rt), "ldst_ordered", Kind::Mem, &[*rt, *rn]);
+                    e.base = Some(*rn);
+                    v.push(e);
+                }
+            }
+        }
+    }
+    // literal loads
+    for opc in 0..4 {
+        for imm in [0u32, 2, 0x3ffff, 0x40000, 0x7ffff] {
+            v.push(enc(ldlit(opc, imm, 0), "ld_literal", Kind::Plain, &[]));
+        }
+    }
+    // ---- pairs
+    let pr: [(u32, u32, u32); 9] = [(0, 1, 2), (3, 4, 31), (31, 5, 6), (7, 31, 8), (31, 31, 31), (9, 10, 9), (11, 12, 12), (13, 13, 14), (29, 30, 31)];
+    for opc in 0..4u32 {
+        for mode in 0..4u32 {
+            for l in 0..2u32 {
+                for imm in [0u32, 1, 0x3f, 0x40, 0x7e, 0x7f] {
+                    for (j, (rt, rt2, rn)) in pr.iter().enumerate() {
+                        if j >= 2 && imm != 1 && imm != 0x7e {
+                            continue;
+                        }
+                        let mut e = enc(ldst_pair(opc, mode, l, imm, *rt2, *rn, *rt), "ldst_pair", Kind::Mem, &[*rt, *rt2, *rn]);
+                        e.base = Some(*rn);
+                        v.push(e);
+                    }
+                }
+            }
+        }
+    }
+    // ---- branches
+    for link in 0..2 {
+        for imm in [0u32, 1, 2, 0x1ffffff, 0x2000000, 0x3ffffff, 0x3fffc00] {
+            v.push(enc(b_imm(link, imm), "b_imm", Kind::Plain, &[30]));
+        }
+    }
+    for opc in 0..4 {
+        for rn in [0u32, 1, 17, 29, 30, 31] {
+            v.push(enc(b_reg(opc, rn), "b_reg", Kind::BranchReg, &[rn, 30]));
+        }
+    }
+    for cond in 0..16 {
+        for imm in [2u32, 0x7ffff, 0x40000, 0] {
+            v.push(enc(b_cond(cond, imm), "b_cond", Kind::Cond, &[]));
+        }
+    }
+    for sf in 0..2 {
+        for op in 0..2 {
+            for imm in [2u32, 0x7fffe, 0x3ffff] {
+                for rt in [0u32, 15, 30, 31] {
+                    v.push(enc(cb(sf, op, imm, rt), "cbz_cbnz", Kind::TestReg, &[rt]));
+                }
+            }
+        }
+    }
+    for b5 in 0..2u32 {
+        for op in 0..2 {
+            for b40 in [0u32, 1, 15, 16, 30, 31] {
+                for (imm, rt) in [(2u32, 0u32), (0x3fff, 30), (0x2000, 31), (1, 7)] {
+                    let mut e = enc(tb(b5, op, b40, imm, rt), "tbz_tbnz", Kind::TestReg, &[rt]);
+                    e.hints = vec![1u64 << (b5 * 32 + b40)];
+                    v.push(e);
+                }
+            }
+        }
+    }
+    // ---- accepted encodings outside the property's integer classes (reported, not compared)
+    v.push(enc(0xd503201f, "other_nop", Kind::Plain, &[]));
+    v.push(enc(0xfd400020, "other_simd_ldst", Kind::Plain, &[]));
+    v.push(enc(0x3d800020, "other_simd_ldst", Kind::Plain, &[]));
+    v.push(enc(0xf9800020, "other_prfm", Kind::Plain, &[]));
+    v
+}
+
+/// a random word of one of the classes (all fields random, incl. undefined combinations)
+fn random_enc(r: &mut Rng) -> Enc {
+    let f = |r: &mut Rng, n: u64| r.below(n) as u32;
+    let reg = |r: &mut Rng| if r.chance(1, 5) { 31 } else { r.below(31) as u32 };
+    match r.below(20) {
+        0 | 1 => {
+            let (rn, rd) = (reg(r), reg(r));
+            let sh = f(r, 2);
+            let imm = f(r, 4096);
+            let mut e = enc(addsub_imm(f(r, 2), f(r, 2), f(r, 2), sh, imm, rn, rd), "addsub_imm", Kind::Arith, &[rn, rd]);
+            e.hints = vec![(imm as u64) << (12 * sh)];
+            e
+        }
+        2 | 3 => {
+            let (rm, rn, rd) = (reg(r), reg(r), reg(r));
+            enc(addsub_shift(f(r, 2), f(r, 2), f(r, 2), f(r, 4), rm, f(r, 64), rn, rd), "addsub_shift", Kind::Arith, &[rn, rm, rd])
+        }
+        4 | 5 => {
+            let (rm, rn, rd) = (reg(r), reg(r), reg(r));
+            enc(addsub_ext(f(r, 2), f(r, 2), f(r, 2), rm, f(r, 8), f(r, 6), rn, rd), "addsub_ext", Kind::Arith, &[rn, rm, rd])
+        }
+        6 => {
+            let (rm, rd) = (reg(r), reg(r));
+            let rn = if r.chance(3, 4) { 31 } else { reg(r) };
+            let (sh, amt) = if r.chance(3, 4) { (0, 0) } else { (f(r, 4), f(r, 64)) };
+            enc(orr_shift(f(r, 2), sh, rm, amt, rn, rd), "mov_reg", Kind::Arith, &[rm, rn, rd])
+        }
+        7 => {
+            let rd = reg(r);
+            let imm = *r.pick(&[0u32, 0xffff, 0x8000, 1]) ^ if r.chance(1, 2) { f(r, 65536) } else { 0 };
+            enc(movwide(f(r, 2), f(r, 4), f(r, 4), imm, rd), "mov_wide", Kind::Arith, &[rd])
+        }
+        8 | 9 => {
+            let (rt, rn) = (reg(r), reg(r));
+            let mut e = enc(ldst_uimm(f(r, 4), f(r, 4), f(r, 4096), rn, rt), "ldst_uimm", Kind::Mem, &[rt, rn]);
+            e.base = Some(rn);
+            e
+        }
+        10 | 11 => {
+            let (rt, rn) = (reg(r), reg(r));
+            let kind = *r.pick(&[0u32, 1, 3, 3, 1, 0, 2]);
+            let class = match kind { 0 => "ldst_unscaled", 1 => "ldst_post", 2 => "ldst_unpriv", _ => "ldst_pre" };
+            let mut e = enc(ldst_imm9(f(r, 4), f(r, 4), f(r, 512), kind, rn, rt), class, Kind::Mem, &[rt, rn]);
+            e.base = Some(rn);
+            e
+        }
+        12 | 13 => {
+            let (rt, rn, rm) = (reg(r), reg(r), reg(r));
+            let mut e = enc(ldst_reg(f(r, 4), f(r, 4), rm, f(r, 8), f(r, 2), rn, rt), "ldst_reg", Kind::Mem, &[rt, rn, rm]);
+            e.base = Some(rn);
+            e.offreg = Some(rm);
+            e
+        }
+        14 | 15 => {
+            let (rt, rt2, rn) = (reg(r), reg(r), reg(r));
+            let mut e = enc(ldst_pair(f(r, 4), f(r, 4), f(r, 2), f(r, 128), rt2, rn, rt), "ldst_pair", Kind::Mem, &[rt, rt2, rn]);
+            e.base = Some(rn);
+            e
+        }
+        16 => {
+            let (rt, rn) = (reg(r), reg(r));
+            let mut e = enc(ldst_ord(f(r, 4), f(r, 2), f(r, 2), rn, rt), "ldst_ordered", Kind::Mem, &[rt, rn]);
+            e.base = Some(rn);
+            e
+        }
+        17 => {
+            if r.chance(1, 2) {
+                enc(b_imm(f(r, 2), r.next() as u32), "b_imm", Kind::Plain, &[30])
+            } else {
+                let rn = reg(r);
+                enc(b_reg(f(r, 3), rn), "b_reg", Kind::BranchReg, &[rn, 30])
+            }
+        }
+        18 => enc(b_cond(f(r, 16), r.next() as u32), "b_cond", Kind::Cond, &[]),
+        _ => {
+            let rt = reg(r);
+            if r.chance(1, 2) {
+                enc(cb(f(r, 2), f(r, 2), r.next() as u32, rt), "cbz_cbnz", Kind::TestReg, &[rt])
+            } else {
+                let (b5, b40) = (f(r, 2), f(r, 32));
+                let mut e = enc(tb(b5, f(r, 2), b40, r.next() as u32, rt), "tbz_tbnz", Kind::TestReg, &[rt]);
+                e.hints = vec![1u64 << (b5 * 32 + b40)];
+                e
+            }
+        }
+    }
+}
+
+// ---------------------------------------------------------------- state sampling
+const BOUNDARY: [u64; 14] = [
+    0, 1, 2, 0x7f, 0x80, 0xff, 0x7fff, 0x8000, 0x7fff_ffff, 0x8000_0000, 0xffff_ffff, 0x1_0000_0000, 0x7fff_ffff_ffff_ffff, 0x8000_0000_0000_0000,
+];
+fn boundary_value(r: &mut Rng, hints: &[u64]) -> u64 {
+    match r.below(10) {
+        0..=3 => *r.pick(&BOUNDARY),
+        4 => u64::MAX - r.below(3),
+        5 | 6 if !hints.is_empty() => {
+            // values that put the result at a carry / overflow / zero boundary for this immediate
+            let h = *r.pick(hints);
+            let base = *r.pick(&[0u64, 0x8000_0000_0000_0000, 0x8000_0000, 0x1_0000_0000, 0]);
+            let delta = r.below(3).wrapping_sub(1);
+            if r.chance(1, 2) { base.wrapping_sub(h).wrapping_add(delta) } else { base.wrapping_add(h).wrapping_add(delta) }
+        }
+        7 => 1u64 << r.below(64),
+        8 => !(1u64 << r.below(64)),
+        _ => r.next(),
+    }
+}
+fn address_value(r: &mut Rng) -> u64 {
+    match r.below(12) {
+        0 => 0x2000,
+        1 => 0x2000 + r.range(1, 7),
+        2 => 0x1000 - r.range(1, 15), // the access crosses a 4 KiB page
+        3 => 0x10000 - r.range(1, 8),
+        4 => r.next() >> 17,
+        5 => r.next(),
+        6 => 0xffff_ffff_ffff_fff0 + r.below(16), // top of the address space (possible wrap: outside the model)
+        7 => r.below(16),                         // bottom: negative offsets wrap
+        8 => 0x8000_0000_0000_0000 - r.below(9),
+        9 => 0xffff_fff8 + r.below(16),
+        _ => (r.next() >> 20) & !7,
+    }
+}
+fn offset_value(r: &mut Rng) -> u64 {
+    match r.below(10) {
+        0 => 0,
+        1 => r.range(1, 9),
+        2 => 0xffff_ffff,
+        3 => 0x8000_0000,
+        4 => u64::MAX - r.below(9),
+        5 => 0x7fff_ffff,
+        6 => r.next() & 0xffff_ffff,
+        7 => 0xffff_ffff_0000_0000 | r.below(64),
+        _ => r.next(),
+    }
+}
+
+struct Sample {
+    ovr: Vec<(u32, u64)>,
+    nzcv: u32,
+    salt: u64,
+}
+fn samples_for(r: &mut Rng, e: &Enc) -> Vec<Sample> {
+    let count = match e.kind { Kind::Arith => 8, Kind::Mem => 6, Kind::Cond => 16, Kind::TestReg => 8, Kind::BranchReg => 4, Kind::Plain => 2 };
+    (0..count)
+        .map(|k| {
+            let mut ovr: Vec<(u32, u64)> = vec![];
+            match e.kind {
+                Kind::Arith | Kind::TestReg => {
+                    for reg in &e.regs {
+                        if !ovr.iter().any(|(x, _)| x == reg) {
+                            ovr.push((*reg, boundary_value(r, &e.hints)));
+                        }
+                    }
+                    if e.kind == Kind::TestReg && k == 0 {
+                        ovr = e.regs.iter().map(|x| (*x, 0)).collect();
+                    }
+                }
+                Kind::Mem => {
+                    if let Some(b) = e.base {
+                        ovr.push((b, address_value(r)));
+                    }
+                    if let Some(o) = e.offreg {
+                        if !ovr.iter().any(|(x, _)| *x == o) {
+                            ovr.push((o, offset_value(r)));
+                        }
+                    }
+                    for reg in &e.regs {
+                        if !ovr.iter().any(|(x, _)| x == reg) {
+                            ovr.push((*reg, boundary_value(r, &[])));
+                        }
+                    }
+                }
+                Kind::BranchReg => {
+                    for reg in &e.regs {
+                        if !ovr.iter().any(|(x, _)| x == reg) {
+                            let v = match r.below(5) { 0 => 0, 1 => 0x1000, 2 => r.next() >> 16, 3 => u64::MAX - 3, _ => r.next() };
+                            ovr.push((*reg, v));
+                        }
+                    }
+                }
+                Kind::Cond | Kind::Plain => {}
+            }
+            let nzcv = if e.kind == Kind::Cond { k as u32 } else { r.below(16) as u32 };
+            Sample { ovr, nzcv, salt: r.below(1 << 20) }
+        })
+        .collect()
+}
+
+// ---------------------------------------------------------------- one case
+fn coq_succs(s: &[(u64, Option<falcon::il::Expression>)], it: &mut Interner) -> String {
+    coq_list(s.iter().map(|(a, c)| format!("({}, {})", a, coq_opt(c.as_ref().map(|e| coq_expr(e, it))))).collect::<Vec<_>>())
+}
+
+fn is_subs(word: u32) -> bool {
+    // add/sub (immediate | shifted register | extended register) with op = 1, S = 1
+    let op_s = (word >> 29) & 3 == 3;
+    let imm = (word >> 23) & 0x3f == 0b100010;
+    let reg = (word >> 24) & 0x1f == 0b01011;
+    op_s && (imm || reg)
+}
+
+fn gcd(a: u64, b: u64) -> u64 {
+    if b == 0 { a } else { gcd(b, a % b) }
+}
+
+fn gen_case(seed: u64, idx: u64, table: &[Enc], total: u64) -> Case {
+    let mut r = Rng::for_case(seed, idx);
+    let r = &mut r;
+    let m = table.len() as u64;
+    let _ = total;
+    let e = if idx < m {
+        // a fixed stride permutation of the structured table (independent of --n, so that --only i
+        // regenerates case i): every prefix is a spread subsample
+        let p = [7919u64, 7907, 7901, 7883].iter().copied().find(|p| gcd(*p, m) == 1).unwrap_or(1);
+        table[((idx * p) % m) as usize].clone()
+    } else {
+        random_enc(r)
+    };
+    let addr: u64 = match r.below(8) {
+        0 => 0x40_0000,
+        1 => 0x7fff_fffc,
+        2 => 0xffff_ffff_fff0,
+        3 => 0x10,
+        4 => (r.next() >> 20) & !3,
+        _ => 0x1000,
+    };
+    let big = r.chance(1, 3);
+    let bytes = e.word.to_le_bytes().to_vec();
+    let opts = Options::new();
+    let res = observe(|| if big { AArch64Eb::new().translate_block(&bytes, addr, &opts) } else { AArch64::new().translate_block(&bytes, addr, &opts) });
+    let mut it = seed_interner();
+    let (obs, lift_tag, shown) = match &res {
+        Obs::Ok(b) => {
+            if b.instructions().len() == 1 && b.instructions()[0].0 == addr {
+                let g = &b.instructions()[0].1;
+                let ops: Vec<String> = g.blocks().iter().flat_map(|bl| bl.instructions().iter().map(|i| format!("{}", i.operation()))).collect();
+                let succ: Vec<String> = b.successors().iter().map(|(a, c)| format!("{:#x}{}", a, c.as_ref().map(|e| format!(" if {}", e)).unwrap_or_default())).collect();
+                (
+                    format!("(LOk {} {})", coq_cfg(g, None, &mut it), coq_succs(b.successors(), &mut it)),
+                    "ok",
+                    format!("{{{}}} -> [{}]", ops.join("; "), succ.join(", ")),
+                )
+            } else {
+                ("LOther".to_string(), "other", "unexpected block shape".to_string())
+            }
+        }
+        Obs::Err(k) => ("LErr".to_string(), "err", format!("Err {}", k)),
+        Obs::Panic => ("LPanic".to_string(), "panic", "PANIC".to_string()),
+    };
+    let samples = if lift_tag == "ok" { samples_for(r, &e) } else { vec![] };
+    let coq_samples = coq_list(
+        samples
+            .iter()
+            .map(|s| {
+                format!(
+                    "mksample {} {} {}",
+                    coq_list(s.ovr.iter().map(|(k, v)| format!("({}, {})", k, v)).collect::<Vec<_>>()),
+                    s.nzcv,
+                    s.salt
+                )
+            })
+            .collect::<Vec<_>>(),
+    );
+    let mut tags = vec![format!("class:{}", e.class), format!("lift:{}", lift_tag), format!("endian:{}", if big { "big" } else { "little" })];
+    if lift_tag == "ok" {
+        if e.class.starts_with("other_") {
+            tags.push("cov:accepted-outside-the-listed-classes".into());
+        }
+        if is_subs(e.word) {
+            // every accepted SUBS: the lifter's `c` is "a borrow occurred"; the Arm ARM has C = NOT borrow
+            tags.push("kf:subs-carry-is-borrow".into());
+        }
+    }
+    Case {
+        coq: format!("K {} {} {} {} {}", e.word, addr, coq_bool(big), obs, coq_samples),
+        descr: format!("word {:#010x} at {:#x} ({}, {}-endian data): {} ; {} sampled states", e.word, addr, e.class, if big { "big" } else { "little" }, shown, samples.len()),
+        tags,
+        nontrivial: lift_tag == "ok" && !e.class.starts_with("other_"),
+        key: format!("{:08x}:{:x}:{}", e.word, addr, big),
+    }
+}
+
+fn main() {
+    quiet_panics();
+    let args = parse_args();
+    let table = structured();
+    if args.extra.contains_key("count") {
+        println!("{}", table.len());
+        return;
+    }
+    let idxs: Vec<u64> = match args.only { Some(i) => vec![i], None => (0..args.n).collect() };
+    let cases: Vec<Case> = idxs.iter().map(|i| gen_case(args.seed, *i, &table, args.n)).collect();
+    write_cases(
+        &args,
+        "C03",
+        "From Coq Require Import ZArith List NArith.\nFrom Falcon Require Import Base.Res IL.Const IL.Expr IL.Func Isa.C03Check.\nImport ListNotations.\nLocal Open Scope Z_scope.",
+        "ck",
+        &cases,
+        16,
+        serde_json::json!({"structured_table": table.len()}),
+    );
 }
